@@ -56,6 +56,22 @@ theorem exit_iff_patched (r : Run) (hv : r.v = patched)
   exit_iff_partial r hsafe hcode hlost hwrap hkey hplain (by simp [avoidsUnmatchedNofail, hv, patched])
     (by simp [avoidsCheckConfig, hv, patched])
 
+/-- **Every schedule.**  With the thread / process executor the messages of the workers reach the executor in some interleaving
+    `es` of the per-file streams (any list with the same elements as `fromFiles r`, in particular any permutation).  The exit
+    status does not depend on `es` at all, and it equals the error exit code iff the run *as printed under that schedule* shows a
+    finding that is not exitcode-suppressed.  (`printed r = printedOf r (fromFiles r)` is the file-after-file schedule.) -/
+theorem exit_iff_any_schedule (r : Run) (hv : r.v = patched)
+    (hsafe : r.o.safety = false) (hcode : r.o.errorExitCode % 256 ≠ 0) (hlost : r.lostPipes = 0)
+    (hwrap : noWrap r = true) (hkey : keyCoherent r = true) (hplain : unmatchedPlain r = true)
+    (es : List Emit) (hes : es.Perm (fromFiles r)) :
+    exitStatus r = waitStatus r.o.errorExitCode ↔ ∃ f ∈ printedOf r es, f.nofail = false := by
+  rw [exit_iff_patched r hv hsafe hcode hlost hwrap hkey hplain, printed_eq,
+    printedOf_iff_cand r hsafe hkey hplain es (fun e => hes.mem_iff),
+    printedOf_iff_cand r hsafe hkey hplain (fromFiles r) (fun _ => Iff.rfl)]
+
+example : printedOf (sampleRun patched .thread) (fromFiles (sampleRun patched .thread)).reverse = printed (sampleRun patched .thread) ∨
+    (printedOf (sampleRun patched .thread) (fromFiles (sampleRun patched .thread)).reverse).map (·.key) = [3, 2, 4, 5] := by decide
+
 /-- outside `--safety` the status is the error exit code or 0, and it is 0 when nothing that counts was printed -/
 theorem exit_else_zero (r : Run) (hsafe : r.o.safety = false) :
     (exitStatus r = waitStatus r.o.errorExitCode ∨ exitStatus r = 0) ∧
@@ -84,7 +100,9 @@ theorem exit_zero_when_errorExitCode_zero (r : Run) (hsafe : r.o.safety = false)
 example : exitStatus { sampleRun patched .single with o := sampleOpts 0 .single } = 0 ∧
     exitStatus { sampleRun patched .single with o := sampleOpts 256 .single } = 0 := by decide
 
-/-- an invalid command line exits with 1, `--help`/`--version` with 0, before anything is analysed -/
+/-- an invalid command line exits with 1, `--help`/`--version` with 0, before anything is analysed.  True by the definition of
+    `processStatus`: the content of this clause is in the tie (statement extraction of `CppCheckExecutor::check` and the invalid
+    command lines of the CLI grid), the theorem only records which definition the tie validates. -/
 theorem invalid_cmdline_is_1 (r : Run) : processStatus .fail r = 1 ∧ processStatus .exit r = 0 ∧
     processStatus .ok r = exitStatus r := ⟨rfl, rfl, rfl⟩
 
